@@ -97,6 +97,10 @@ impl<'a, const DEF: bool> System<'a> for PSys<DEF> {
     fn accessor<'b>(&'b self) -> AccessorCow<'a, 'b, Self> {
         AccessorCow::Ref(&self.acc)
     }
+    /// every hint occurs (by tag); `ParSeq` has no use for it
+    fn running_time(&self) -> shred::RunningTime {
+        rt((1 + self.inner.acc.tag % 5) as u8)
+    }
     fn setup(&mut self, world: &mut World) {
         let a = &self.inner.acc;
         a.shared.behav[a.tag].sys_setups.fetch_add(1, SeqCst);
@@ -122,19 +126,27 @@ fn srun<D>(c: &SCore, data: D) {
     {
         let n = sh.inside.fetch_add(1, SeqCst) + 1;
         sh.max_inside.fetch_max(n, SeqCst);
-        struct Leave<'s>(&'s Shared);
+        struct Leave<'s>(&'s Shared, usize);
         impl Drop for Leave<'_> {
             fn drop(&mut self) {
                 self.0.inside.fetch_sub(1, SeqCst);
             }
         }
-        let _leave = Leave(sh);
+        b.entered.store(true, SeqCst);
+        let _leave = Leave(sh, c.tag);
         let want = b.rendezvous.load(SeqCst);
         if want > 1 {
             let t = Instant::now();
             let lim = Duration::from_micros(sh.rendezvous_timeout_us.load(SeqCst));
-            while sh.max_inside.load(SeqCst) < want && sh.inside.load(SeqCst) < want && t.elapsed() < lim {
-                std::thread::yield_now();
+            let partner = b.partner.load(SeqCst);
+            if partner > 0 {
+                while !sh.behav[partner - 1].entered.load(SeqCst) && t.elapsed() < lim {
+                    std::thread::yield_now();
+                }
+            } else {
+                while sh.max_inside.load(SeqCst) < want && sh.inside.load(SeqCst) < want && t.elapsed() < lim {
+                    std::thread::yield_now();
+                }
             }
         }
         let hold = b.hold_us.load(SeqCst);
@@ -157,6 +169,9 @@ macro_rules! stat {
             fn run(&mut self, d: $d) {
                 srun(&self.0, d)
             }
+            fn running_time(&self) -> shred::RunningTime {
+                rt((1 + self.0.tag % 5) as u8)
+            }
             fn setup(&mut self, world: &mut World) {
                 let c = &self.0;
                 c.shared.behav[c.tag].sys_setups.fetch_add(1, SeqCst);
@@ -170,6 +185,9 @@ macro_rules! stat {
             type SystemData = $d;
             fn run(&mut self, d: $d) {
                 srun(&self.0, d)
+            }
+            fn running_time(&self) -> shred::RunningTime {
+                rt((1 + self.0.tag % 5) as u8)
             }
         }
     };
